@@ -123,6 +123,12 @@ func (s *VisvalingamSimplifier) simplify(ls orb.LineString, area, wim bool) (orb
 			break
 		}
 
+		if current.previous == nil || current.next == nil {
+			// an end point, it is never removed. It can come up before
+			// interior points whose area overflowed to +Inf like its own.
+			continue
+		}
+
 		next := current.next
 		previous := current.previous
 
